@@ -51,9 +51,7 @@ func runL1Stream(cfg L1StreamCfg, seed uint64, tier string, outdir string) *Repo
 				errKinds[o.Kind] = true
 			}
 		}
-		for _, m := range cfg.Monitors {
-			m(rep, c)
-		}
+		runL1Monitors(rep, c, seed*100000+uint64(k), cfg.Monitors) // monitors + minimisation of a failing history
 		rep.Ops += len(c.Ops)
 		rep.CountCase(strings.Join(l1OpsHuman(c.Ops), "\n"), len(okKinds) >= 3 && len(errKinds) >= 2)
 		if k == 0 {
